@@ -113,6 +113,10 @@ def run(prog: Program, rep: Report, tier: str):
     rep.rule("C07.wrapper", "the wrapper installed around every bijection method returns method(unwrap(bijection), "
                             "checked x, checked condition) unchanged", minimum=1)
     rule_wrapper(prog, rep, "C07.wrapper")
+    # "with the constructor's parameters": constants derived from them are Python values, not trainable leaves
+    from .leaves import rule_static_fields
+    from .bij import bijection_classes as _bc
+    rule_static_fields(prog, rep, "C07.static-fields", _bc(prog), minimum=8)
     if tier == "thorough":
         from ..audit import audit_generic
         audit_generic(prog, rep, "C07")
